@@ -32,6 +32,14 @@ def tables(rnd, quick):
 def scripts(rnd, quick):
     for sc in macro_script(rnd):          # a table written with the library's own construction macros
         yield sc
+    # tables that have areas but not a single register: every handle is "no such entry" for both variants and for get
+    for be in (0, 1):
+        for areas in ([area(2, 3)], [area(2, 2, kind=1), area(4, 3)], [area(1, 0), area(1, 2)]):
+            sc = [tinit(be, areas, [])]
+            for h in (0, 1, 2, 65535, 65536, 2 ** 31 - 1, 2 ** 32 - 1):
+                for ty in (U16, rnd.randrange(8), F32):
+                    sc += [set_(h, ty, boundary_values(ty)[2], 0), set_(h, ty, boundary_values(ty)[2], 1), 'get %d' % h]
+            yield rebased(sc, rnd, 0.3)
     for be, ty, ck, lo, hi, ins, outs, areas, regs in (list(tables(rnd, quick)) if quick else list(tables(rnd, quick)) + list(tables(rnd, quick)) + list(tables(rnd, quick))):
         sc = [tinit(be, areas, regs), 'get 0', 'get 1', 'get 2']
         m = (1 << BITS[ty]) - 1
